@@ -102,9 +102,21 @@ def run_case(case):
         events.append([sorted(atom(v) for v in removed), sorted(atom(v) for v in added)])
 
     ts.notifiers.append(rec)
+    oev = None
+    if owner is not None:
+        oev = []
+
+        def observer(ev):
+            if ev.object is not owner.s:
+                oev.append([[-1], [-1]])      # event.object must identify the set that changed
+            oev.append([sorted(atom(v) for v in ev.removed), sorted(atom(v) for v in ev.added)])
+
+        owner.observe(observer, "s:items")
     hist = []
     for op in case["ops"]:
         del events[:]
+        if oev is not None:
+            del oev[:]
         k = op[0]
         out, ret, cv = "Ok", None, None
         try:
@@ -151,7 +163,7 @@ def run_case(case):
         except Exception as e:  # noqa
             out = dlib.exn_name(e, EXN)
         hist.append({"out": out, "after": contents(ts), "events": [list(e) for e in events],
-                     "ret": ret, "cv": cv})
+                     "ret": ret, "cv": cv, "oev": None if oev is None else [list(e) for e in oev]})
     return hist
 
 
